@@ -1007,3 +1007,87 @@ def rule_out_param_not_reseated(ctx):
                 ctx.holds("OUTPARAM", key, f.where(), "`%s` is only written through" % v, nontrivial=False)
     ctx.floor("OUTPARAM", 20, n, "(pointer out-parameters in the tools)")
     return n
+
+
+# ---------------------------------------------------------------------------------------------------------------------
+def rule_member_pair_compare(ctx):
+    """MEMBERPAIR (C08): a Vgroup's members are (tag, ref) pairs kept in two parallel arrays.  A test whether a given member is
+    present compares *both* components at the same index; a condition that looks at `ref[i]` alone takes any object with the
+    same reference number — of whatever tag — for the member (insertions are refused as duplicates, deletions hit the wrong
+    member)."""
+    prog = ctx.prog
+    n = 0
+    for f in prog.lib_funcs():
+        if not f.rel.endswith(("vgp.c", "vg.c", "vattr.c")):
+            continue
+        conds = []
+
+        def vis(nn, st):
+            if nn[0] in ("if", "while"):
+                conds.append((nn[1], [a[1] for a in st if a[0] in ("if", "while")], nn[4] if nn[0] == "if" else nn[3]))
+            elif nn[0] == "for" and nn[2] is not None:
+                conds.append((nn[2], [a[1] for a in st if a[0] in ("if", "while")], nn[5] if len(nn) > 5 else 0))
+            return True
+        ast_walk(f.raw.get("ast"), vis)
+        ordn = 0
+        for c, outer, line in conds:
+            for x in walk(c, True):
+                if x[0] != "bin" or x[1] not in ("==", "!="):
+                    continue
+                for a in (x[2], x[3]):
+                    ua = strip(a)
+                    if kind(ua) == "idx" and (mem_field(ua[1]) or (0, 0)) == ("vgroup_desc", "ref"):
+                        ordn += 1
+                        n += 1
+                        key = "MEMBERPAIR:%s#%d" % (f.name, ordn)
+                        def ixname(e):
+                            e = strip(e)
+                            return render(strip(e[3])) if kind(e) == "incdec" else render(e)
+                        ix = ixname(ua[2])
+                        base = render(strip(strip(ua[1])[1]))
+                        ok = False
+                        for cc in [c] + outer:
+                            for y in walk(cc, True):
+                                if y[0] == "bin" and y[1] in ("==", "!="):
+                                    for b in (y[2], y[3]):
+                                        ub = strip(b)
+                                        if kind(ub) == "idx" and (mem_field(ub[1]) or (0, 0)) == ("vgroup_desc", "tag") and ixname(ub[2]) == ix and render(strip(strip(ub[1])[1])) == base:
+                                            ok = True
+                        if ok:
+                            ctx.holds("MEMBERPAIR", key, f.where(line), "`%s` is tested together with the tag at the same index" % render(x)[:50], nontrivial=True)
+                        else:
+                            ctx.violated("MEMBERPAIR", key, f.where(line), "`%s` identifies a member by its reference number alone; the tag at index `%s` is not compared: members of "
+                                         "different tags that share a reference number are confused" % (render(x)[:60], ix))
+    ctx.floor("MEMBERPAIR", 3, n, "(member look-ups over a Vgroup's tag/ref arrays)")
+    return n
+
+
+# ---------------------------------------------------------------------------------------------------------------------
+def rule_internal_class_match(ctx):
+    """INTERNALCLS (C08): the predicates that tell the library's own Vgroups and Vdatas from the user's (Visinternal,
+    Vgisinternal, VSisinternal) compare the class with each entry of a table of reserved class names over the length of the
+    *table entry*.  Measured over the length of the user's class instead, every user class that is a prefix of a reserved name
+    ("Var", "Dim", "RI", "") is classified as internal, and such objects vanish from Vgetvgroups / VSgetvdatas."""
+    prog = ctx.prog
+    n = 0
+    for f in prog.lib_funcs():
+        if not f.rel.endswith(("vgp.c", "vio.c", "vg.c")):
+            continue
+        ordn = 0
+        for _b, _i, _s, c in f.calls():
+            if c[1] != "strncmp" or len(c[3]) < 3:
+                continue
+            tabs = [a for a in c[3][:2] if kind(strip(a)) == "idx" and kind(strip(strip(a)[1])) == "var" and strip(strip(a)[1])[2] in ("g", "s")]
+            ln = strip(c[3][2])
+            if not tabs or kind(ln) != "call" or ln[1] != "strlen" or not ln[3]:
+                continue
+            ordn += 1
+            n += 1
+            key = "INTERNALCLS:%s#%d" % (f.name, ordn)
+            if render(strip(ln[3][0])) == render(strip(tabs[0])):
+                ctx.holds("INTERNALCLS", key, f.where(c[5]), "compared over the length of the table entry `%s`" % render(strip(tabs[0]))[:40], nontrivial=True)
+            else:
+                ctx.violated("INTERNALCLS", key, f.where(c[5]), "`%s` compares over the length of `%s`, not of the reserved name `%s`: a class that is a prefix of a reserved name is taken "
+                             "for internal" % (render(c)[:70], render(strip(ln[3][0]))[:30], render(strip(tabs[0]))[:30]))
+    ctx.floor("INTERNALCLS", 3, n, "(comparisons against the tables of reserved class names)")
+    return n
